@@ -807,6 +807,9 @@ func report(run *ev.Run, sc schedule, att int, res *attemptResult) {
 	if sc.Scen != "" {
 		cfgSig = "scripted:" + sc.Scen + " " + cfgSig
 	}
+	if sc.Scen == "losttx" {
+		cfgSig += fmt.Sprintf(" withheld<=%d invalid-for-the-others=%v", sc.Lost.MaxLost, sc.Lost.Invalid)
+	}
 	sig := fmt.Sprintf("%s faults=%s viewchange=%v recovery=%v reqtx=%v sync=%v dup=%v reorder=%v",
 		cfgSig, strings.Join(kinds, ","), viewChanges > 0, recoveries > 0, res.net["delivered_tx"] > 0, res.net["delivered_syncblock"] > 0, res.net["duplicated"] > 0, res.net["reordered"] > 0)
 	nontrivial := res.faultBlocks > 0 && res.an.obs["heights_agreed"] > 0 && res.an.obs["node_height_hashes_compared"] > 0
